@@ -49,7 +49,9 @@ error texts and traces (byte accessors, fetch, decoder front end, the error-hint
 an *entry-state* version (read before the handler's first write): CALL r/m64 that resolves its operand after the push
 is reported (seeded change S02).""",
 "C04": """*As built.* `value` requires the pushed value to be an entry-state read: a PUSH that reads its operand after RSP was
-changed is reported (PUSH RSP stores the old RSP; seeded change S11).""",
+changed is reported (PUSH RSP stores the old RSP; seeded change S11). `empty` compares affine forms (any spelling of
+`slot == stack_top`) and, round 4, requires the normal-finish signal to be raised only on paths where that comparison
+holds (seeded change S39: a RET that finds the shadow call stack empty ends the run).""",
 "C05": """*As built.* `formula` runs `mem_addr` once per address class (78: 64-bit, 64-bit with extended registers, 67h
 32-bit, 32-bit extended; base/index presence; scale; segment) with representative constant registers and iced's register
 predicates answered from E1, and compares the affine normal form (with the 32-bit truncation placed before the segment
@@ -93,7 +95,9 @@ function's result (the search goes on) unless the very same (start, size) range 
 (seeded change S18: probe with `length`, allocate `length + 8n`).""",
 "C18": """*As built (round 2).* **total** additionally triages every overflow / bounds check on the paths of `trace()` and
 `call_stack()`: a check on machine state (a vector length, a level, an address) is reported unless the path establishes
-it by a dominating comparison or, for `len(X) - k`, by k elements already taken from an iterator over X.""",
+it by a dominating comparison or, for `len(X) - k`, by k elements already taken from an iterator over X. **pair** (round 4)
+also interprets the handlers with failing guest memory accesses: a transfer that faults before RIP is written leaves no
+trace entry and no call-stack change (seeded change S45).""",
 "C19": """*As built (round 2).* Added **slices**: the 20 slice/index/copy sites of the cone are either inside the three
 bounds-analysed accessors (decided for all endpoint orderings by C08.bounds + C08.invariant) or carry a relational
 obligation discharged on every path of their function (pipe read: min(); trace: loop guard; mem_read_8: constant below
